@@ -1,6 +1,5 @@
 import Ntrip.Proofs.SegmentRefine
 import Ntrip.Proofs.SegmentSpec
-import Ntrip.Guards.Framing
 /-!
 # C01 — only complete CRC-valid frames are ever presented as typed RTCM messages
 
@@ -81,8 +80,5 @@ example : scan ([0x41, 0x42] ++ sampleFrame ++ [0xD3]) = .junk [0x41, 0x42] (sam
 example : scan (sampleFrame ++ [0xD3]) = .frame sampleFrame [0xD3] := by decide +kernel
 
 example : msgOfFrame crc24q sampleFrame = { typ := 1005, raw := sampleFrame } := by decide +kernel
-
-/-- Tie T1: guards and loop headers of the modelled code, regenerated from the source. -/
-theorem tie_guards_framing : type_of% Ntrip.Guards.framing := Ntrip.Guards.framing
 
 end Ntrip.C01
